@@ -24,6 +24,10 @@ def conditions(tier, seed):
         if n >= 2:
             out.append(Cond('ring_n%d' % n, 'c16_sort.py', dict(n=n, mode='ring'), timeout=t,
                             bound='all rings over %d instances, both phrases' % n, case_split=['ai', 'fwd']))
+            for rot in range(1, min(n, 3)):
+                out.append(Cond('ring_n%d_rot%d' % (n, rot), 'c16_sort.py', dict(n=n, mode='ring', rotate=rot), timeout=t,
+                                bound='all rings over %d instances given as a query set rotated by %d (first member is not the first created instance)' % (n, rot),
+                                case_split=['ai', 'fwd'], twin=False))
     for n in range(2, 5):
         out.append(Cond('chains_prehistory_n%d' % n, 'c16_sort.py', dict(n=n, mode='chains', prehistory=True, kind='C'), timeout=t,
                         bound='all arrangements of %d instances, built after a relate/unrelate history (stale link bookkeeping), upper-case class name' % n,
